@@ -9,7 +9,8 @@ command.  A connection ends
                 finished; main_loop() lets it through, the harness catches it and calls main_loop() again the way a
                 reconnect loop (`except OSError: connect again`) does,
   * 'cut'       the face goes down (Face.run() returns) while start-up registration has sent k of the n commands
-                (k = 0 .. n-1; the k-th command is never answered).
+                (k = 0 .. n-1; the k-th command is never answered); with VERIF_C17_ABORT_DURING_STARTUP=1 also by
+                Face.run() raising at that moment (finding C17-8, see below).
 Routes are declared before the first connection, while start-up registration is in progress (after its first command went
 out), while a connection is up and idle, and between two connections.
 
@@ -21,25 +22,14 @@ import asyncio
 import os
 import vloop
 
-# The unchanged legacy front-end (ndn.app) keeps the callbacks of a connection that ended badly: main_loop() skips
-# _clean_up() when Face.run() raises, and the start-up task installs the callback of one more route after _clean_up()
-# when the connection is lost during start-up registration; the start-up registration of the NEXT connection then dies
-# with ValueError('Duplicated registration') and the remaining routes are never registered on it (finding C17-7,
-# candidate_fixes/C17-7-legacy-stale-callbacks-after-bad-disconnect.*).  Until that is repaired in /repo the legacy
-# cases of this stream end their connections in an orderly way.  Set to '1' once main_loop() cleans up on every path.
-LEGACY_BAD_ENDS = os.environ.get('VERIF_C17_LEGACY_BAD_ENDS') == '1'
-
-
-def _legacy_keep_out(case):
-    if case['fe'] != 'v1' or LEGACY_BAD_ENDS:
-        return case
-    conns = []
-    for i, c in enumerate(case['conns']):
-        if c['end'] == 'cut' or c['end'].startswith('abort:'):
-            c = dict(c, end='close' if i % 2 else 'shutdown')
-            c.pop('k', None)
-        conns.append(c)
-    return dict(case, conns=conns)
+# Face.run() raising WHILE start-up registration is in progress (a 'cut' whose `how` is 'abort:X'), followed by a reconnect
+# within the lifetime of the command that was in flight: main_loop() awaits its start-up task only on the orderly path, so
+# on /repo the old task is still alive when the next connection opens and goes on registering its remaining routes on
+# that connection as well - routes registered twice there (both front-ends; on the legacy front-end the old task can
+# instead leave a callback behind that makes the next start-up die with 'Duplicated registration').  Finding C17-8,
+# candidate_fixes/C17-8-startup-task-outlives-aborted-connection.*; until it is repaired in /repo these cases are
+# generated only with VERIF_C17_ABORT_DURING_STARTUP=1.
+ABORT_DURING_STARTUP = os.environ.get('VERIF_C17_ABORT_DURING_STARTUP') == '1'
 
 ABORTS = {'ConnectionAbortedError': ConnectionAbortedError, 'OSError': OSError, 'TimeoutError': TimeoutError}
 
@@ -57,6 +47,10 @@ def _conn(rng, last, n_known):
     if end == 'cut':
         c['k'] = rng.randrange(max(1, n_known))
         c['after'] = 0
+        if ABORT_DURING_STARTUP and c['k'] > 0 and rng.random() < 0.6:
+            c['how'] = 'abort:' + rng.choice(['ConnectionAbortedError', 'OSError', 'TimeoutError'])
+            c['gap_ms'] = rng.choice([0, 0, 5, 300, 1500])
+            c['during'] = 0      # (a registration task spawned by route() that straddles the two connections: not judged)
     return c
 
 
@@ -65,11 +59,15 @@ def cases(rng, tier):
     # the shapes of the report first: abort after start-up / cut after the first of two commands, then two more connections
     for fe in ('v2', 'v1'):
         for end in ('abort:ConnectionAbortedError', 'abort:OSError', 'abort:TimeoutError', 'close', 'shutdown'):
-            yield _legacy_keep_out({'mode': 'rc', 'fe': fe, 'before': 2,
-                                    'conns': [{'end': end}, {'end': 'shutdown'}, {'end': 'shutdown'}]})
+            yield {'mode': 'rc', 'fe': fe, 'before': 2, 'conns': [{'end': end}, {'end': 'shutdown'}, {'end': 'shutdown'}]}
         for k in (0, 1, 2):
-            yield _legacy_keep_out({'mode': 'rc', 'fe': fe, 'before': 3,
-                                    'conns': [{'end': 'cut', 'k': k}, {'end': 'close'}, {'end': 'shutdown'}]})
+            yield {'mode': 'rc', 'fe': fe, 'before': 3,
+                   'conns': [{'end': 'cut', 'k': k}, {'end': 'close'}, {'end': 'shutdown'}]}
+        if ABORT_DURING_STARTUP:
+            for k in (1, 2):
+                yield {'mode': 'rc', 'fe': fe, 'before': 3,
+                       'conns': [{'end': 'cut', 'k': k, 'how': 'abort:ConnectionAbortedError'}, {'end': 'close'},
+                                 {'end': 'shutdown'}]}
     for i in range(n):
         before = rng.choice([0, 1, 2, 2, 3])
         conns, known = [], before
@@ -80,7 +78,7 @@ def cases(rng, tier):
                 c = {'end': 'close', 'during': 0, 'after': 1, 'between': 1, 'gap_ms': 0}
             conns.append(c)
             known += c['during'] + c['after'] + c['between']
-        yield _legacy_keep_out({'mode': 'rc', 'fe': 'v2' if i % 3 else 'v1', 'before': before, 'conns': conns})
+        yield {'mode': 'rc', 'fe': 'v2' if i % 3 else 'v1', 'before': before, 'conns': conns}
 
 
 def shrink(case):
@@ -94,7 +92,7 @@ def shrink(case):
         for key in ('during', 'after', 'between', 'gap_ms'):
             if c.get(key):
                 yield dict(case, conns=conns[:i] + [dict(c, **{key: 0})] + conns[i + 1:])
-        if c['end'] == 'cut' and c.get('k', 0) > 0:
+        if c['end'] == 'cut' and c.get('k', 0) > (1 if c.get('how') else 0):
             yield dict(case, conns=conns[:i] + [dict(c, k=c['k'] - 1)] + conns[i + 1:])
         if c['end'] not in ('shutdown', 'cut', 'abort:ConnectionAbortedError') and c['end'].startswith('abort'):
             yield dict(case, conns=conns[:i] + [dict(c, end='abort:ConnectionAbortedError')] + conns[i + 1:])
@@ -233,6 +231,18 @@ def run(case):
                     if answered >= len(sent):
                         break
             stayed_up = not cut and cut_at != 0 and not t.done()
+            if stayed_up and not set(judged) <= set(registered(face.conn)):
+                # not every route has been seen yet: stay up for more than a command lifetime, answering what comes
+                for _ in range(80):
+                    loop.advance(loop.time() + 0.02)
+                    while answered < len(sent):
+                        c, w = sent[answered]
+                        answered += 1
+                        if c == face.conn:
+                            answer(w)
+                    if t.done() or set(judged) <= set(registered(face.conn)):
+                        break
+                stayed_up = not t.done()
             if stayed_up:
                 for _ in range(spec.get('after', 0)):
                     loop.call_now(declare, 'a')              # the connection is up and idle
@@ -280,7 +290,8 @@ def run(case):
 def _how(spec):
     e = spec['end']
     if e == 'cut':
-        return f"was lost after {spec.get('k', 0)} start-up command(s)"
+        return (f"was lost after {spec.get('k', 0)} start-up command(s)" +
+                (f", {spec['how'][6:]} raised by Face.run()" if spec.get('how') else ''))
     if e.startswith('abort:'):
         return f'ended with {e[6:]} raised by Face.run()'
     return 'ended in an orderly way'
